@@ -497,11 +497,30 @@ def check_constructors(s, rule="C13.5"):
              s.loc("FlattenObservation", "__init__"), key="flatten-observation", detail=f"func={show(func or NONE, maxlen=80)} space={show(space or NONE, maxlen=160)}")
 
 
+def check_adapter_key_stream(s, rule):
+    """the Gymnasium adapter's running key: every reset / step consumes one half of jr.split(self.key) AND stores the other half back,
+    so that successive episodes (auto-resets, unseeded resets) draw fresh states and the adapted environment's own randomness advances;
+    a helper that splits without storing (`key, sub = jr.split(self.key)`) replays one sub-key for ever"""
+    self_ = ("param", "self")
+    bk = s.builder(inline={"_next_key"})
+    for meth in ("reset", "step"):
+        for pk in live(s.paths(bk, "LeraxToGymEnv", meth)):
+            newk = pk.self_attrs.get("key")
+            calls = [c for c in walk(pk.ret) if isinstance(c, tuple) and c and c[0] == "call" and c[1] == ("attr", ("attr", self_, "env"), meth)]
+            used = dict((k, v) for k, v in calls[0][3] if k).get("key") if calls else None
+            ok_adv = (isinstance(newk, tuple) and newk[0] == "item" and isinstance(newk[1], tuple) and newk[1][0] == "call" and newk[1][1] == ("global", "jax.random.split")
+                      and isinstance(used, tuple) and used[0] == "item" and used[1] == newk[1] and used[2] != newk[2])
+            s.ob(rule, f"LeraxToGymEnv.{meth}", ok_adv, "the adapter stores one half of jr.split(key) back as its running key and uses the other half for this call", s.loc("LeraxToGymEnv", meth),
+                 key=f"gym-adapter-key-advance-{meth}", detail=f"self.key := {show(newk if newk is not None else NONE, maxlen=100)}; call key = {show(used if used is not None else NONE, maxlen=100)}",
+                 necessary_for="the adapter reproduces the adapted environment's trajectory: fresh initial states after every episode end, fresh randomness every step")
+
+
 def check_adapters(s, rule="C13.7"):
     P = s.prog
     self_ = ("param", "self")
     b = s.builder(inline=set())
     nz = Normalizer(b)
+    check_adapter_key_stream(s, rule)
     # LeraxToGymEnv.step / reset
     con = "LeraxToGymEnv.step"
     loc = s.loc("LeraxToGymEnv", "step")
